@@ -110,6 +110,9 @@ func VerifH_C10_ts() {
 		data     byte
 		seg      int
 		segFirst int64
+		// a non-leading unit that precedes its segment's first leading unit in the file is anchored through the
+		// previous segment's date-time; its AbsoluteTime is outside the claim (exact only for a gap-free wall clock)
+		beforeLead bool
 	}
 	var want []exp
 	t0 := time.Date(2023, 5, 5, 5, 5, 5, 0, time.UTC)
@@ -149,7 +152,7 @@ func VerifH_C10_ts() {
 			for k := 0; k < na; k++ {
 				err := seg.w.WriteMPEG4Audio(at, ta%wrap, [][]byte{{0xA0, tag}})
 				verifAssume(err == nil)
-				want = append(want, exp{track: 1, dts: ta - T0, pts: ta - T0, data: tag, seg: s, segFirst: segFirst})
+				want = append(want, exp{track: 1, dts: ta - T0, pts: ta - T0, data: tag, seg: s, segFirst: segFirst, beforeLead: audioFirst})
 				tag++
 				ta += verifRangeI64("adelta", 1, 1<<20)
 			}
@@ -163,16 +166,8 @@ func VerifH_C10_ts() {
 		}
 		payloads = append(payloads, append([]byte(nil), seg.buf.Bytes()...))
 		if verifBool("datetime") {
-			// wall clock jumps between segments are allowed, except where non-leading units precede the
-			// segment's first leading unit in the file: those are anchored through the previous segment, which
-			// is only exact when PROGRAM-DATE-TIME is consistent with media time (stated as outside the claim)
-			t := t0.Add(time.Duration(s) * 10 * time.Second)
-			if audioFirst {
-				t = t0.Add(time.Duration(s-1)*10*time.Second + timestampToDuration(segFirst, 90000) - timestampToDuration(prevSegFirst, 90000))
-				if dtl[s-1] == nil {
-					t = t0.Add(time.Duration(s) * 10 * time.Second)
-				}
-			}
+			_ = prevSegFirst
+			t := t0.Add(time.Duration(s) * 10 * time.Second) // the wall clock may jump between segments
 			dtl = append(dtl, &t)
 		} else {
 			dtl = append(dtl, nil)
@@ -233,7 +228,7 @@ func VerifH_C10_ts() {
 			} else {
 				verifAssert("C10", "unit-bytes", verifHasNALU(g.data, 0xA0, e.data))
 			}
-			if dtl[e.seg] != nil {
+			if dtl[e.seg] != nil && !e.beforeLead {
 				wantAbs := dtl[e.seg].Add(timestampToDuration(e.dts-e.segFirst, 90000))
 				// "when available": always for the leading track of a dated segment
 				verifAssert("C10", "absolute-time-available-for-leading-track", g.ntp != nil || ti != 0)
